@@ -40,14 +40,17 @@ def hexs(s):
     return s.encode().hex() or "-"
 
 
-def run_cases(hbin, runner, cmds, timeout=3000, runner_args=""):
+def run_cases(hbin, runner, cmds, timeout=600, runner_args=""):
     mism, stats = [], {}
     for i in range(0, len(cmds), NPROC):
         chunk = cmds[i:i + NPROC]
         outs = run_pipeline(["%s %s | %s %s" % (hbin, c, runner, runner_args) for c in chunk], timeout=timeout)
         for (rc, out), c in zip(outs, chunk):
             m, s, other = parse_runner_output(out)
-            if rc != 0 or "mismatches" not in s or "evaluations" not in s:
+            hangs = [l.split("\t", 1)[1] for l in other if l.startswith("HANG\t")]
+            for h in hangs:
+                mism.append({"kind": "hang", "case": h, "impl": "the real code did not return within 10 s", "expected": c})
+            if not hangs and (rc != 0 or "mismatches" not in s or "evaluations" not in s):
                 mism.append({"kind": "harness", "case": c, "impl": "pipeline failed rc=%s" % rc, "expected": out[-500:]})
             mism += m
             for k, v in s.items():
@@ -183,11 +186,17 @@ def run(tier, seed, replay=None):
         cmds += ["glike 250000 %d" % (seed * 1000 + i) for i in range(2 * shards)]
         cmds += ["vm 40000 %d" % (seed * 1000 + 100 + i) for i in range(2 * shards)]
         cmds += ["random 60000 %d 7" % (seed * 1000 + 200 + i) for i in range(shards)]
-    mism, stats = run_cases(hbin, runner, cmds)
+    mism, stats = run_cases(hbin, runner, cmds, timeout=150 if tier == "quick" else 1500)
 
     spec_m = [m for m in mism if m["kind"] == "spec"]
     model_m = [m for m in mism if m["kind"] in ("model", "vm")]
-    other_m = [m for m in mism if m["kind"] not in ("spec", "model", "vm", "known")]
+    other_m = [m for m in mism if m["kind"] not in ("spec", "model", "vm", "known", "hang")]
+    hang_m = [m for m in mism if m["kind"] == "hang"]
+    if hang_m:
+        worst = min(hang_m, key=lambda m: (len(m["case"]), m["case"]))
+        res.violation("the real code does not return (10 s watchdog) on %s" % worst["case"][:1500],
+                      {"theorem_or_correspondence": "C08 correspondence (run): pest::state / Vm::parse must return", "case": worst["case"],
+                       "impl": worst["impl"], "other_hanging_cases": [m["case"] for m in hang_m[1:6]]}, no_failing_input=not spec_m)
     if spec_m:
         worst = min(spec_m, key=lambda m: (len(m["case"]), m["case"]))
         small = minimise(hbin, runner, worst["case"], "spec")
